@@ -1,5 +1,11 @@
 package dagaz
 
+import "sync"
+
 type State struct {
+	// mutex serializes access to the spatial partition, which is shared by
+	// all the participants of a session.
+	mutex sync.Mutex
+
 	SpatialPartition SpatialPartition
 }
